@@ -582,6 +582,12 @@ where
     /// ```
     ///
     pub fn add_event(&mut self, event: impl Into<A::EventSet>, time: SimTime) {
+        // The event set only knows the timestamp of the last fetched event, which
+        // lags behind the simulation clock if a custom start time was configured.
+        assert!(
+            time >= SimTime::now(),
+            "Cannot schedule an event before the current simulation time"
+        );
         self.future_event_set.add(time, event);
         self.event_id += 1;
     }
